@@ -1,15 +1,20 @@
 ------------------------- MODULE Gen_DiscoveryServer -------------------------
-(* spec -> code: every interface list x every maximal sequence boot, restart*, shutdown, *)
-(* with a fresh choice at every (re)start of which interfaces come up                    *)
+(* spec -> code: every interface list x every maximal sequence of boot, restart*,        *)
+(* shutdown, with a fresh choice at every (re)start of which interfaces come up and of   *)
+(* whether the new responder thread is held back (then "run" releases the pending        *)
+(* threads at every later point); a probe request follows whenever no thread is pending. *)
 EXTENDS DiscoveryServer, Json
 VARIABLE hist
-Step(k) == [act |-> k, up |-> up',
-            exp |-> [listening |-> IF phase' = "up" THEN Tcp(cfg) \cap up' ELSE {},
-                     answers |-> last'.answers, serving |-> phase' = "up"]]
+ProbeDue == created = {} /\ last.kind \notin {"probe", "none"}
+Start(k) == [act |-> k, up |-> up', held |-> created' # created,
+             exp |-> [listening |-> IF phase' = "up" THEN Tcp(cfg) \cap up' ELSE {}]]
 GInit == WInit /\ hist = <<>>
-GNext == \/ Boot /\ hist' = <<[act |-> "boot", cfg |-> cfg, up |-> up', exp |-> Step("boot").exp]>>
-         \/ Restart /\ hist' = Append(hist, Step("restart"))
-         \/ Shutdown /\ hist' = Append(hist, Step("shutdown"))
+GNext == IF ProbeDue
+         THEN Probe /\ hist' = Append(hist, [act |-> "probe", exp |-> [answers |-> last'.answers]])
+         ELSE \/ Boot /\ hist' = <<[act |-> "boot", cfg |-> cfg] @@ Start("boot")>>
+              \/ Restart /\ hist' = Append(hist, Start("restart"))
+              \/ Shutdown /\ hist' = Append(hist, [act |-> "shutdown", exp |-> [listening |-> {}]])
+              \/ RunAll /\ hist' = Append(hist, [act |-> "run", exp |-> [listening |-> IF phase = "up" THEN Tcp(cfg) \cap up ELSE {}]])
 GSpec == GInit /\ [][GNext]_<<wvars, hist>>
-Emit1 == (hist # <<>> /\ ~ ENABLED WNext) => PrintT(<<"BEH", ToJson(hist)>>)
+Emit1 == (hist # <<>> /\ ~ ENABLED GNext) => PrintT(<<"BEH", ToJson(hist)>>)
 =============================================================================
